@@ -13,6 +13,7 @@ structure BW where
   interval : Nat            -- index_key_interval (NonZeroUsize)
   offsets  : List Nat       -- index_offsets, starts as [0]
   counter  : Nat            -- index_key_counter
+  items    : List Entry := []   -- ghost: the entries inserted since the last reset
   deriving Repr, Inhabited
 
 namespace BW
@@ -22,7 +23,7 @@ def new (interval : Nat) : BW :=
 
 /-- `BlockWriter::reset` (run by `BlockBuffer::drop`). -/
 def reset (w : BW) : BW :=
-  { w with buffer := [], lastKey := none, offsets := w.offsets.take 1, counter := 0 }
+  { w with buffer := [], lastKey := none, offsets := w.offsets.take 1, counter := 0, items := [] }
 
 /-- `current_size_estimate`. -/
 def sizeEstimate (w : BW) : Nat := w.buffer.length + w.offsets.length * 8 + 4
@@ -41,11 +42,11 @@ def insert (w : BW) (k v : Bytes) : Except Trap BW :=
   | some lk =>
     if lk < k then
       .ok { w with buffer := w.buffer ++ frame k v, lastKey := some k,
-                   offsets := offsets, counter := counter + 1 }
+                   offsets := offsets, counter := counter + 1, items := w.items ++ [(k, v)] }
     else .error .keyOrder
   | none =>
       .ok { w with buffer := w.buffer ++ frame k v, lastKey := some k,
-                   offsets := offsets, counter := counter + 1 }
+                   offsets := offsets, counter := counter + 1, items := w.items ++ [(k, v)] }
 
 /-- `BlockWriter::finish`: the uncompressed block bytes. -/
 def finish (w : BW) : Bytes :=
